@@ -35,6 +35,7 @@ CHECKS = {
              quick=dict(checks=0, shards=0), thorough=dict(checks=1600, shards=16, timeout=14000)),
     ]),
     "C06": dict(tests=[rapid("pure", "TestC06", 40000, 4000000, qs=8)]),
+    "C07": dict(tests=[rapid("e2e", "TestC07", 96, 8000, qs=16, ts=16, timeout=1200, ttimeout=14000)]),
     "C08": dict(tests=[rapid("storeprops", "TestC08", 16000, 1600000, qs=8)]),
     "C09": dict(tests=[rapid("storeprops", "TestC09", 24000, 1600000, qs=8)]),
     "C10": dict(tests=[rapid("storeprops", "TestC10", 4000, 320000, qs=8)]),
